@@ -3,6 +3,7 @@ package main
 import (
 	"fmt"
 	"go/ast"
+	"go/build"
 	"go/importer"
 	"go/parser"
 	"go/token"
@@ -67,6 +68,10 @@ func (l *loader) load(dir string) (*pkgInfo, error) {
 	pkgName := ""
 	for _, m := range matches {
 		if strings.HasSuffix(m, "_test.go") {
+			continue
+		}
+		// honour build constraints (bitboard/bits_18.go vs bits_19.go): only the files the toolchain would compile
+		if ok, err := build.Default.MatchFile(filepath.Dir(m), filepath.Base(m)); err == nil && !ok {
 			continue
 		}
 		f, err := parser.ParseFile(fset, m, nil, parser.ParseComments)
